@@ -19,7 +19,7 @@ type c20 struct{}
 func (c20) ID() string    { return "C20" }
 func (c20) Level() string { return "model_checking" }
 func (c20) Rule() string {
-	return "cases = producer/consumer systems on the real code: Solver.Optimal with a result channel (every CNF of S3 with <=2 clauses and of T2 with <=1 clause, with no cost function, a unit-weight and a weighted cost function, so that streams have 1..4 results incl. Unsat), Solver.Enumerate with a model channel (0..8 models), maxsat WCNF Optimal (producer + internal forwarder goroutine + consumer) x channel capacity 0,1,2. For every case ALL schedules with at most 2 preemptions (3 in thorough) are enumerated under the cooperative scheduler (scheduling points: thread start/exit, every goroutine creation, channel send/receive/close in library and harness, instrumented shared-variable accesses). Oracle on every schedule: no deadlock, no send on closed channel, no double close, no panic, no happens-before race; channel closed when the consumer stops; every delivered result is a model with its true cost (truth table), costs strictly decrease, last delivered == returned, returned cost is the minimum; enumeration delivers each model exactly once and the count matches. Non-trivial = the stream has at least 2 values and the case has at least 2 schedules."
+	return "cases = producer/consumer systems on the real code: Solver.Optimal with a result channel (every CNF of S3 with <=2 clauses and of T2 with <=1 clause, with no cost function, a unit-weight and a weighted cost function, so that streams have 1..4 results incl. Unsat), Solver.Enumerate with a model channel (0..8 models), maxsat WCNF Optimal (producer + internal forwarder goroutine + consumer) x channel capacity 0,1,2. For every case ALL schedules with at most 2 preemptions (3 in thorough) are enumerated under the cooperative scheduler (scheduling points: thread start/exit, every goroutine creation, channel send/receive/close in library and harness, instrumented shared-variable accesses). Oracle on every schedule: no deadlock, no send on closed channel, no double close, no panic, no happens-before race; channel closed when the consumer stops and already closed at the moment the library call returns; every delivered result is a model with its true cost (truth table), costs strictly decrease, last delivered == returned, returned cost is the minimum; enumeration delivers each model exactly once and the count matches. Non-trivial = the stream has at least 2 values and the case has at least 2 schedules."
 }
 func (c20) Assumptions() []string {
 	return []string{"the cooperative scheduler models Go channel semantics (FIFO buffer, rendezvous, close) and the happens-before edges of the Go memory model for channel operations", "unsynchronised accesses to memory that the rewriter does not instrument are left to the free-running -race pass of C16", "consumers follow the documented contract (drain until close)"}
@@ -97,6 +97,10 @@ func judgeStream(c conc.StreamCase, st conc.Stream) []core.Failure {
 	}
 	if !st.Closed {
 		add("channel-not-closed", "the consumer never saw the channel closed")
+		return fs
+	}
+	if !st.ClosedAtReturn {
+		add("channel-open-at-return", "the library call returned while the channel it was given was still open (closed only later, by a goroutine that outlived the call)")
 		return fs
 	}
 	switch c.Kind {
